@@ -156,6 +156,9 @@ THREAD_CONFIGS = [
     (["-t", "ext4", "-b", "1024", "-g", "256", "-G", "1", "-N", "128"], "1300K"),    # 5 groups
     # 64 groups whose bitmap blocks all have a damaged tail (padding bits clear): every loader thread has something to report
     (["-t", "ext2", "-b", "1024", "-g", "256", "-O", "^flex_bg,^resize_inode", "-N", "512"], "16M"),
+    # the same geometry; a damaged block-bitmap tail only in the first groups, a damaged inode-bitmap tail only in the last group:
+    # different threads report different flags, the loader has to merge them
+    (["-t", "ext2", "-b", "1024", "-g", "256", "-O", "^flex_bg,^resize_inode", "-N", "512"], "16M"),
 ]
 THREADS = ["1", "2", "3", "4", "5", "7", "8", "16", "33", "64", "0", "-1"]
 
@@ -176,11 +179,14 @@ def thread_check(src, tier, seed):
         r = e2v.rng(seed, "c17thr", k)
         cmds = ["mkdir d%d" % i for i in range(r.randint(2, 12))] + ["write /etc/services f%d" % i for i in range(r.randint(3, 30))]
         e2v.sh([os.path.join(src, "debugfs/debugfs"), "-w", "-f", "-", img], input=("\n".join(cmds) + "\n").encode(), env=env, timeout=300)
-        if k == len(THREAD_CONFIGS) - 1:
+        if k >= len(THREAD_CONFIGS) - 2:
             fsx = Fs(img)
+            split = k == len(THREAD_CONFIGS) - 1
             with open(img, "r+b") as f:
-                for gd in fsx.groups:
-                    for blk in (gd["block_bitmap"], gd["inode_bitmap"]):
+                for g_, gd in enumerate(fsx.groups):
+                    for which_, blk in (("b", gd["block_bitmap"]), ("i", gd["inode_bitmap"])):
+                        if split and not ((which_ == "b" and g_ < 3) or (which_ == "i" and g_ == len(fsx.groups) - 1)):
+                            continue
                         f.seek(blk * fsx.bs + fsx.bs - 1)
                         f.write(b"\x7f")
         imgs.append((k, opts, img))
